@@ -41,7 +41,9 @@ func c16rGen(t *rapid.T) c16rCase {
 	}
 	n := rapid.IntRange(3, 10).Draw(t, "nsteps")
 	for i := 0; i < n; i++ {
-		switch k := rapid.IntRange(0, 11).Draw(t, "kind"); {
+		switch k := rapid.IntRange(0, 12).Draw(t, "kind"); {
+		case k == 12:
+			c.Steps = append(c.Steps, c16rStep{Kind: "sendallbusy", N: rapid.IntRange(0, 3).Draw(t, "floodms")})
 		case k < 2:
 			c.Steps = append(c.Steps, c16rStep{Kind: "cfgtri", N: rapid.IntRange(1, 6).Draw(t, "nchan"), M: rapid.IntRange(0, 3).Draw(t, "ratek")})
 		case k < 4:
@@ -126,6 +128,7 @@ func c16rRun(c c16rCase) (v vVerdict) {
 		return vVerdict{Inconclusive: "zmq connect: " + err.Error()}
 	}
 	last := map[string]string{} // tag -> JSON text of the last message received
+	seen := map[string]int{}    // tag -> messages received
 	probeN := 0
 	sync := func(patience time.Duration) bool { // everything sent so far has been received
 		probeN++
@@ -145,6 +148,7 @@ func c16rRun(c c16rCase) (v vVerdict) {
 				continue
 			}
 			last[m[0]] = m[1]
+			seen[m[0]]++
 		}
 		return false
 	}
@@ -184,6 +188,7 @@ func c16rRun(c c16rCase) (v vVerdict) {
 	defer stopSource()
 	rates := []float64{10000, 40000, 1e5, 12345.5}
 	failedStarts, goodStarts := 0, 0
+	busySendalls := 0
 	for _, st := range c.Steps {
 		var r bool
 		switch st.Kind {
@@ -201,6 +206,45 @@ func c16rRun(c c16rCase) (v vVerdict) {
 			}
 		case "stop":
 			stopSource()
+		case "sendallbusy":
+			// A client asks for all status while the updater has a backlog (here: a flood of stateless messages from another
+			// thread keeps its 10-place queue full): every topic published so far must be repeated all the same.
+			if !sync(10 * time.Second) {
+				return vVerdict{Inconclusive: "lost a marker"}
+			}
+			before := map[string]int{}
+			for tag := range last {
+				before[tag] = seen[tag]
+			}
+			if len(before) == 0 {
+				continue
+			}
+			// (a bounded number of bulky messages: the publisher's own queue towards the subscriber must not overflow,
+			// or the messages of interest would be dropped by the transport)
+			bulk := strings.Repeat("flood ", 20000)
+			floodDone := make(chan struct{})
+			go func() {
+				defer close(floodDone)
+				for k := 0; k < 40+10*(st.N%4); k++ {
+					clientMessageChan <- ClientUpdate{"NEWDASTARD", bulk}
+				}
+			}()
+			time.Sleep(time.Duration(100*(1+st.N%3)) * time.Microsecond)
+			d := ""
+			err := sc.SendAllStatus(&d, &r)
+			<-floodDone
+			if err != nil {
+				return vFailf("sendall-rejected", "SendAllStatus: %v", err)
+			}
+			if !sync(15 * time.Second) {
+				return vVerdict{Inconclusive: "lost the marker after a request for all status"}
+			}
+			for tag, n := range before {
+				if seen[tag] <= n {
+					return vFailf("sendall-not-replayed", "a client asked for all status while the updater was busy: the request returned success, but the last %s message was not sent again (%d topics had been published)", tag, len(before))
+				}
+			}
+			busySendalls++
 		case "lengths":
 			sc.ConfigurePulseLengths(SizeObject{Nsamp: st.N, Npre: st.M}, &r)
 		case "trig":
@@ -279,6 +323,9 @@ func c16rRun(c c16rCase) (v vVerdict) {
 	}
 	if goodStarts > 0 {
 		v.Classes = append(v.Classes, "started")
+	}
+	if busySendalls > 0 {
+		v.Classes = append(v.Classes, "sendall-with-a-backlog")
 	}
 	return v
 }
